@@ -24,7 +24,7 @@ ASSUMPTIONS = [
 ]
 
 _BY_TYPE = None
-PROJECT_LEVEL = ("pfield", "cell", "pattr", "pclear", "pbulk", "praw")
+PROJECT_LEVEL = ("pfield", "cell", "pattr", "pclear", "pbulk", "praw", "plinks")
 
 
 def key_of_type(type_string):
@@ -165,6 +165,11 @@ def project_edits(obj):
         for v in (vals[1], vals[-1]):
             out.append({"k": "pfield", "n": n, "v": v})
     out.append({"k": "pfield", "n": "name", "v": "edited näme"})
+    # three new modules wired up in an order that differs from their numbering, with and without a freed slot
+    for name, seq in (("fan-out-out-of-order", [["c", 2, 1], ["c", 2, 0], ["c", 1, "out"]]),
+                      ("freed-slot-then-link", [["c", 2, 0], ["c", 2, 1], ["d", 2, 0], ["c", 1, "out"]]),
+                      ("lists", [["c", 0, "out"], ["c", 1, "out"], ["c", 2, [1, 0]], ["d", 0, "out"]])):
+        out.append({"k": "plinks", "n": name, "seq": seq})
     for pi, pat in enumerate(obj.patterns):
         if pat is None:
             continue
@@ -206,6 +211,20 @@ def apply_edit(obj, mi, e):
             n = pat.data[pat.lines - 1][0]
             c = e["then"]
             n.note, n.vel, n.module, n.ctl, n.val = rv.NOTECMD(c[0]), c[1], c[2], c[3], c[4]
+    elif k == "plinks":
+        new = [obj.new_module(rv.m.Amplifier) for _ in range(3)]
+
+        def ref(x):
+            if x == "out":
+                return obj.output
+            if isinstance(x, list):
+                return [new[i] for i in x]
+            return new[x]
+        for how, a, b in e["seq"]:
+            if how == "c":
+                obj.connect(ref(a), ref(b))
+            else:
+                ref(a) >> ~ref(b)
     elif k == "pbulk":
         pat = obj.patterns[e["p"]]
         if e["n"] == "set_via_fn":
@@ -303,7 +322,9 @@ def check_edit(src, data, mi, e, presave=False, pre=None):
         return "no-change", []
     vs = []
     # (3) locality
-    if e["k"] in PROJECT_LEVEL:
+    if e["k"] == "plinks":
+        outside = []                # adds modules and links them: the module table is what the edit is about
+    elif e["k"] in PROJECT_LEVEL:
         outside = [x for x in d01 if x[0].startswith("modules[") or x[0].startswith("module.")]
     else:
         pref = module_path(mi)
@@ -372,6 +393,16 @@ def postcondition(e, s1, mi):
         if k == "map1":
             got = pl["note_samples"][e["i"]]
             return ("note-map", got) if got != e["v"] else None
+        if k == "env_field" and e["n"] != "points":
+            en = e["e"]
+            env = pl["envelopes"][en if en.startswith("effect") else en.replace("_envelope", "")]
+            if e["n"] in env:
+                got = env[e["n"]]
+                return ("envelope-field", got) if got != e["v"] else None
+        if k == "smp_field" and e["n"] in ("volume", "finetune", "panning", "relative_note", "loop_start", "loop_len", "start_pos",
+                                           "rate", "loop_sustain"):
+            got = pl["samples"][e["i"]][e["n"]]
+            return ("sample-field", got) if got != e["v"] else None
     except (KeyError, IndexError, TypeError):
         return None
     return None
